@@ -336,7 +336,9 @@ def check_tiling(result: dict, b: bytes, cfg: dict, enc: str, hex_bitmap: bool =
             elif proc is None or proc in ("PDS", "DE43"):
                 if c.get("field_python_type") in (None, "string") and isinstance(value, str):
                     recoverable = len(value)
-            elif proc == "PAN" and isinstance(value, str) and len(value) >= 10:
+            elif proc == "PAN" and isinstance(value, str) and len(value) > 10:
+                # first-6 / last-4 masking keeps the length only for inputs of 10 or more characters; a masked
+                # value of exactly 10 characters may come from an input of 6..10, so its length says nothing
                 recoverable = len(value)
             if _PLAIN.match(pt):
                 ln = int(pt)
